@@ -151,8 +151,23 @@ def check(ctx):
     mr = ctx.fn("framing", "Framer.makeRunner")
     M = FuncView(ctx, mr)
     mc = M.cfg
-    cs = [t for t in M.tests(lambda t: isinstance(t, ast.Call) and dotted(t.func) == "self.checkStart")]
-    ctx.floor("T1-start:checkStart-tests", len(cs), 2)
+    def has_cs(t):
+        return any(isinstance(x, ast.Call) and dotted(x.func) == "self.checkStart" for x in ast.walk(t))
+
+    def implies_cs(t):
+        """test true => checkStart() was called and truthy"""
+        if isinstance(t, ast.Call) and dotted(t.func) == "self.checkStart":
+            return True
+        if isinstance(t, ast.BoolOp) and isinstance(t.op, ast.And):
+            return any(implies_cs(v) for v in t.values)
+        return False
+    allcs = M.tests(has_cs)
+    ctx.floor("T1-start:checkStart-tests", len(allcs), 2)
+    for t in allcs:
+        ctx.check(implies_cs(t.ast.test), "T1-start", t.ast, "start/ready guard `%s` implies a truthy checkStart()" % src(t.ast.test),
+                  "the start (or ready) of a framer can be taken without its first-frame entry conditions having been checked "
+                  "at the moment of the attempt")
+    cs = [t for t in allcs if implies_cs(t.ast.test)]
     yields = [n for n in mc.nodes if any(isinstance(x, ast.Yield) for x in mc.walk_node(n))]
     enter = M.need(M.call_nodes("self.enterAll"), "self.enterAll() in makeRunner")
     ctx.check(all(any(M.dominated_by_edge([e], t, "T") for t in cs) for e in enter), "T1-start", enter[0].ast,
